@@ -324,6 +324,7 @@ func (s *segment[T, O]) closeResourcesLocked() {
 			s.l.Panic().Err(err).Msg("failed to close the series index")
 		}
 		s.index = nil
+		verifSegmentEvent("SegClosed", s.location)
 	}
 	if sLst := s.sLst.Load(); sLst != nil {
 		for _, shard := range *sLst {
@@ -362,6 +363,7 @@ func (s *segment[T, O]) performDelete() {
 	}
 	s.closeResourcesLocked()
 	s.lfs.MustRMAll(s.location)
+	verifSegmentEvent("SegDeleted", s.location)
 }
 
 // delete flags the segment for deletion. If it is dormant (no active reference)
